@@ -11,14 +11,14 @@ TEXT = {
  "C03": ("other", "Laziness as a frame condition over ghost pull/call counters: the real combinators under the interpreter (next_if_one, map_with, flat_map_then, then, collect_if_once, lazy, Stack::next) pull and run only what the delivered prefix needs. Bounded (streams <= 3).", "DESIGN.md 6 C03"),
  "C04": ("other", "The trampoline's stack discipline (Stack::next drops an exhausted caller before pushing its callee; growth bound per step), bounded. The resource claim itself is not a function postcondition and is not decided.", "DESIGN.md 6 C04"),
  "C05": ("proof", "Absence of panics / overflow / out-of-bounds / unwrap failures as the implicit postcondition of every function under contract (Kani checks them on every path), over the full input domain for the complete obligations: position arithmetic, integer and float operators, Num::length, implode, round, try_as_i32, the conversions around jiff, CBOR integer decoding.", "DESIGN.md 6 C05"),
- "C07": ("other", "The writer half of string round-tripping: for every byte value the real write_byte! macro (with its callers' fall-back expressions) writes the escape RFC 8259 section 7 prescribes (exhaustive over u8 in the thorough tier). The reader and therefore the round trip itself are not decided.", "DESIGN.md 6 C07, 9.1"),
+ "C07": ("other", "The writer half of string round-tripping: for every byte value the real write_byte! macro (with its callers' fall-back expressions) writes the escape RFC 8259 section 7 prescribes (exhaustive over u8 in the thorough tier). On the reader side the number classifier parse_num and the string reader parse_string are run at literal points through the real lexer (decimal literals kept character for character, lone signs rejected, \\xNN as a byte, invalid UTF-8 preserved), and write_buf at points. The round trip itself is not decided.", "DESIGN.md 6 C07, 9.1, 9.4"),
  "C08": ("proof", "Order axioms, eq/cmp coherence, agreement with the mathematical order and hash coherence (over the byte stream fed to any hasher) of the real Num::{cmp,eq,hash} and float_cmp for all machine integers and non-NaN floats, pairs and triples.", "DESIGN.md 6 C08"),
  "C09": ("proof", "Exactness of + - neg % on machine integers against i128 arithmetic for all operand pairs, routing of * through checked_mul, fall-back entered with the same operands; result kinds and bit-exact IEEE values of mixed/float + - * /; round/floor/ceil at the 2^63 boundary.", "DESIGN.md 6 C09"),
  "C10": ("proof", "Kani function contracts on the real position arithmetic (PosUsize::wrap, abs_bound, abs_index, skip_take, as_pos_usize) against an i128 spec of the one position model, for all 2^64 positions/lengths; callers verified against callee contracts.", "DESIGN.md 6 C10"),
  "C11": ("other", "Only range/3: the native funs::range equals its manual `while` definition on concretely enumerated small operand triples, over an exact-integer abstract value type (bounded); plus once_or_empty. first/last/limit/skip, reduce/foreach and the defs.jq definitions are not decided.", "DESIGN.md 6 C11, 9.1"),
- "C12": ("other", "Only the native numeric kernel round/floor/ceil is decided (complete over f64 with the rounding function abstracted); the sorting/grouping kernels did not fit and everything in defs.jq is jq source.", "DESIGN.md 6 C12"),
+ "C12": ("other", "The native numeric kernel round/floor/ceil is decided (complete over f64 with the rounding function abstracted); Val::contains (arrays) and Val::indices (arrays, byte strings, text strings) at a handful of literal points each; the sorting/grouping kernels did not fit and everything in defs.jq is jq source.", "DESIGN.md 6 C12, 9.3, 9.4"),
  "C13": ("other", "implode decided per code for every value (complete); explode;implode = id on every byte string up to length 2 (quick) / 3 (thorough), exhaustive within the bound; trait-contract instances over an abstract value type.", "DESIGN.md 6 C13"),
- "C14": ("other", "CBOR reader-side integer arithmetic (Header::Positive / Negative -> machine integer) exact for every argument, per header variant. All other formats and the CBOR writer are not decided.", "DESIGN.md 6 C14"),
+ "C14": ("other", "CBOR reader-side integer arithmetic (Header::Positive / Negative -> machine integer) exact for every argument, per header variant (complete). CSV / TSV field readers invert the formats' quoting for all contents <= 2 bytes over the metacharacter alphabet (bounded). At literal points only: the CSV row reader on empty / quoted-empty cells; YAML must_quote against a needs_quote written from the YAML 1.2.2 core schema and plain-scalar rules; the TOML key writer against TOML's key grammar. Writers of CBOR / CSV / TSV, XML, document structure of YAML / TOML and the round trips themselves are not decided.", "DESIGN.md 6 C14, 9.2, 9.4"),
  "C15": ("proof", "BinaryOp::precedence / associativity equal the manual's table for every pair of operators (finite domain, all enum payloads symbolic).", "DESIGN.md 6 C15"),
  "C16": ("other", "The variable-numbering arithmetic that decides which data import / command-line variable a module-level $x denotes (Compiler::var), against a lookup in the run-time list; bounded, all table contents symbolic.", "DESIGN.md 6 C16"),
  "C20": ("proof", "The conversions jaq owns around jiff (epoch scaling, to_iso8601, array_to_datetime field mapping, timestamp_to_epoch) as trait-contract instances over an abstract value type with jiff's constructors ghost-stubbed: exact value passed or error, for every machine integer and float.", "DESIGN.md 6 C20"),
